@@ -33,7 +33,7 @@ def _run(args):
     word, pname, prog, kind, fast, emb = args[:6]
     p2name = args[6] if len(args) > 6 else None
     chunk = args[7] if len(args) > 7 else 3
-    prog2 = dict(progs.programs(emb[1], emb[2], kind))[p2name] if p2name else None
+    prog2 = (progs.route_follower(emb[1], emb[2])[1] if p2name == 'route-follower' else dict(progs.programs(emb[1], emb[2], kind))[p2name]) if p2name else None
     case = build_case(word, prog, kind, fast, emb, prog2=prog2, chunk=chunk)
     r = S.run_session(case)
     out = {'viols': [], 'nontrivial': False, 'stats': {}}
@@ -46,6 +46,8 @@ def _run(args):
     p5, s5 = fills.c05(r['trace'], r['end'])
     out['stats'] = dict(stats, **s5)
     out['nontrivial'] = stats['resting_filled'] > 0 and stats['resting_survived_a_phase'] > 0
+    if p2name == 'route-follower':
+        probs = [(c, dict(sg, cross_route_reaction=True), m) for c, sg, m in probs]
     for clause, sig, msg in probs:
         out['viols'].append(Violation(clause, sig, ident, msg).to_json())
     for clause, sig, msg in p5:
@@ -74,6 +76,11 @@ def cases(ctx):
             p2 = P[(i + 4) % len(P)][0]
             for w in progs.words(sigma, n - 1):
                 yield (w, pname, prog, 'futures', fast, emb, p2, 3)
+    # the second route reacts to the first route's fills (on_route_open_position places its stop)
+    for fast in (False, True):
+        for pname, prog in P[:4]:
+            for w in progs.words(sigma, n - 1):
+                yield (w, pname, prog, 'futures', fast, emb, 'route-follower', 3)
     for i, (pname, prog) in enumerate(P):
         for w in progs.words(sigma, n - 1 if ctx.quick else n):
             yield (w, pname, prog, 'futures', True, emb, None, 5)
